@@ -117,10 +117,18 @@ class Ctx:
         self.meta = meta
         self.line = {l.split(' ')[1]: l for l in cases}
 
-    def ops(self, *ops):
+    def ops(self, *ops, wide=False):
+        """cases of the given kinds; shapes with a length type wider than usize (known finding D15, recorded
+        under C01 / C15) are left to those two properties"""
         for l in self.cases:
             if l.split(' ', 1)[0] in ops:
+                if not wide and l.split(' ', 1)[0] != 'L' and not self.narrow(l.split(' ')[2]):
+                    continue
                 yield l.split(' ')[1], l
+
+    def narrow(self, sid):
+        import shapes
+        return not shapes.wide_len(self.shapes[sid])
 
 
 def bad_outcome(head):
@@ -130,7 +138,7 @@ def bad_outcome(head):
 def c01(ctx):
     out = []
     n = 0
-    for cid, l in ctx.ops('V', 'M'):
+    for cid, l in ctx.ops('V', 'M', wide=True):
         r = ctx.rres.get(cid)
         if r is None:
             out.append((cid, 'no result'))
@@ -300,7 +308,7 @@ def c06(ctx):
 def c15(ctx):
     out = []
     n = 0
-    for cid, l in ctx.ops('E', 'D'):
+    for cid, l in ctx.ops('E', 'D', wide=True):
         r = ctx.rres.get(cid)
         if r is None:
             continue
@@ -346,6 +354,9 @@ def c18(ctx):
         if not kv.get('view', '').startswith('ok:') or not kv.get('size', '').startswith('ok:'):
             out.append((cid, 'after a failed assignment the target cannot be inspected: view=%s size=%s'
                         % (kv.get('view'), kv.get('size'))))
+            continue
+        if head.startswith('err:InsufficientSize') and kv.get('buf') != l.split(' ')[4]:
+            out.append((cid, 'the replacement does not fit, but the target was changed'))
     return out, n
 
 
@@ -401,6 +412,39 @@ def c20(ctx):
                 out.append((cid, 'default state depends on the previous buffer contents (see %s)' % pairs[key][0]))
             pairs[key] = (cid, obs)
     return out, n
+
+
+def classify(pid, t, v):
+    """known-finding class of an oracle violation (matched by shape and failure mode, not by property alone)"""
+    import shapes
+    impl = v.get('impl') or ''
+    if t is not None and shapes.wide_len(t) and pid in ('C01', 'C15') and ' panic' in (' ' + impl):
+        return 'wide_len'
+    if pid == 'C18' and t is not None:
+        case = v.get('case') or ''
+        ini = case.split(' ', 5)[5] if len(case.split(' ', 5)) > 5 else ''
+        # the model encodes the emplacer protocol of the code; a listed class only applies where the model
+        # predicts the same outcome (otherwise the implementation has left the model: a plain violation)
+        from vlib import parse_kv, buf_match
+        mk = parse_kv(v.get('model') or 'x x')[2]
+        rk = parse_kv(impl or 'x x')[2]
+        if mk.get('val') != rk.get('val') or not buf_match(mk.get('buf', ''), rk.get('buf', '')):
+            return None
+        if has_init_type(t) and ('(seq' in ini or '(var' in ini):
+            return 'late_field_refusal'
+        if '(viter' in ini or '(flex' in ini:
+            return 'iter_emplacer'
+    return None
+
+
+def has_init_type(t):
+    """does the type involve a generated <T>Init (unsized struct / enum)?"""
+    k = t[0]
+    if k in ('struct', 'enum') and not t[1]:
+        return True
+    if k == 'flex':
+        return has_init_type(t[1])
+    return False
 
 
 # projection: op -> keys compared between model and implementation (None = all keys the model prints)
